@@ -111,9 +111,27 @@ class Exec(Engine):
         return v
 
     # ------------------------------------------------------------------ ANF
+    def callable_value(self, st: State, f):
+        """`obj.attr(...)` where attr is a FIELD holding a callable value (e.g. self.logger_func): the value, if its sort
+        declares a __call__ contract."""
+        if not isinstance(f, ast.Attribute):
+            return None
+        try:
+            recv = Evaluator(self, st.fork()).ev(f.value)
+            if recv.t.k != 'obj' or f'{recv.z}.{f.attr}' not in st.heap:
+                return None
+            v = st.heap[f'{recv.z}.{f.attr}']
+        except (Unsupported, KeyError):
+            return None
+        if v.t.k == 'u' and (v.t.name, '__call__') in self.R.aliases:
+            return v
+        return None
+
     def is_effectful_call(self, st: State, n: ast.Call) -> bool:
         f = n.func
         if isinstance(f, ast.Name) and f.id == 'Thread':
+            return True
+        if self.callable_value(st, f) is not None:
             return True
         if isinstance(f, ast.Attribute) and ast.unparse(f) == 'object.__setattr__':
             return True
@@ -141,7 +159,7 @@ class Exec(Engine):
             root = f
             while isinstance(root, (ast.Attribute, ast.Subscript, ast.Call)):
                 root = root.func if isinstance(root, ast.Call) else root.value
-            if isinstance(root, ast.Name) and not st.has(root.id):
+            if isinstance(root, ast.Name) and not st.has(root.id) and root.id not in self.R.global_objects:
                 c = self.resolve_function(dotted)
                 return c is not None and not c.pure
             try:
@@ -980,6 +998,12 @@ class Exec(Engine):
         # contract call
         ev = Evaluator(self, st)
         recv = None
+        cv = self.callable_value(st, f)
+        if cv is not None:
+            c = self.R.contracts[self.R.aliases[(cv.t.name, '__call__')]]
+            binds = self.bind_args(ev, c, n, cv)
+            outs = self.settle(st, ev, n.lineno)
+            return outs + self.apply_contract(c, binds, st, n.lineno)
         if isinstance(f, ast.Name) and st.has(f.id) and st.get(f.id).t.k == 'u' and (st.get(f.id).t.name, '__call__') in self.R.aliases:
             recv = st.get(f.id)
             c = self.R.contracts[self.R.aliases[(recv.t.name, '__call__')]]
@@ -990,7 +1014,7 @@ class Exec(Engine):
             root = f
             while isinstance(root, (ast.Attribute, ast.Subscript, ast.Call)):
                 root = root.func if isinstance(root, ast.Call) else root.value
-            if isinstance(root, ast.Name) and not st.has(root.id):
+            if isinstance(root, ast.Name) and not st.has(root.id) and root.id not in self.R.global_objects:
                 c = self.resolve_function(ast.unparse(f))
             else:
                 recv = ev.ev(f.value)
@@ -1149,6 +1173,8 @@ class Exec(Engine):
                     out += [k for k in st.heap if k.startswith(base + '.')]
                 else:
                     out.append(f'{base}.{rest}')
+            elif fp.startswith('*.'):
+                out += [k for k in st.heap if k.endswith(fp[1:])]
             else:
                 out.append(fp)       # record field array 'Sort.field' or global '@name'
         return out
@@ -1256,6 +1282,17 @@ class Exec(Engine):
             if True:  # assumed regardless of the property slice (proved under the properties it serves)
                 st.assume(self.eval_clause(st, cl, b2, old=pre_heap))
         if self.cur is not None:
+            for cal, updates in self.cur.ghost_after.items():
+                if cname == cal or cname.endswith('.' + cal):
+                    b4 = dict(self.entry_binds)
+                    for nm in getattr(self.cur, 'cand_locals', ()):
+                        if st.has(nm):
+                            b4[nm] = st.get(nm)
+                    b4['result'] = res
+                    for gpath, gexpr in updates.items():
+                        tgt = self.resolve_ghost_path(gpath, self.entry_binds)
+                        nv = self.eval_spec_in(st, gexpr, b4)
+                        st.heap[tgt] = self.coerce(nv, st.heap[tgt].t) if tgt in st.heap else nv
             for cal, clauses in self.cur.assume_after.items():
                 if cname == cal or cname.endswith('.' + cal):
                     for cl in _as_clauses(clauses):
@@ -1374,7 +1411,7 @@ class Exec(Engine):
                 root = f
                 while isinstance(root, (ast.Attribute, ast.Subscript, ast.Call)):
                     root = root.func if isinstance(root, ast.Call) else root.value
-                if isinstance(root, ast.Name) and not st.has(root.id):
+                if isinstance(root, ast.Name) and not st.has(root.id) and root.id not in self.R.global_objects:
                     return self.resolve_function(ast.unparse(f)), None
                 recv = Evaluator(self, st.fork()).ev(f.value)
                 return self.method_contract_for(recv, f.attr), recv
